@@ -3,7 +3,7 @@
    exactly the bytes it leaves on the data. *)
 From Coq Require Import List NArith Arith Bool Lia.
 From NV Require Import Io.Source Io.ReadExact Io.ReadExactProofs Io.BufReader Io.BufReaderProofs Io.Run
-  Trunc.Stream Io.Prog Io.ProgProofs Io.IndexProg Io.IndexProgProofs Io.ProgCram Io.ProgRun.
+  Trunc.Stream Io.Prog Io.ProgProofs Io.IndexProg Io.IndexProgProofs Io.ProgCram Io.ProgRun Io.CsiProg Io.CsiProgProofs Io.HeaderRead Io.HeaderAdapter Io.HeaderAdapterProofs.
 Import ListNotations.
 Local Open Scope nat_scope.
 
@@ -74,4 +74,44 @@ Theorem run_cram_spec : forall data sc cap chunk,
 Proof.
   intros. apply run_prog_spec. intros _. apply until_free_loop.
   apply until_free_bind; [apply until_free_of_c19|]. intros [[[h hl] body] eof]. destruct eof; exact I.
+Qed.
+
+Theorem run_csi_header_spec : forall data sc cap chunk,
+  run_csi_header cap chunk (mkSource data sc)
+  = (cres_of (fst (run_pure g_header data)), length (snd (run_pure g_header data))).
+Proof. intros. apply run_prog_spec. intros _. apply until_free_g_header. Qed.
+
+Lemma hdr_text_length_le : forall p k e d, length (hdr_text k p e d) <= length d.
+Proof.
+  intros p k. induction k as [|k IH]; intros e d; [cbn; lia|].
+  cbn [hdr_text]. destruct d as [|x t]; [cbn; lia|].
+  destruct (e && negb (N.eqb x p)); [cbn; lia|].
+  set (d := x :: t). pose proof (take_line_le LF d) as Hle.
+  destruct (has_byte LF d); [|exact Hle].
+  rewrite app_length. specialize (IH true (skipn (length (take_line LF d)) d)).
+  rewrite skipn_length in IH. lia.
+Qed.
+
+(* read_to_end through the adapter's Read impl: every script, every BufReader capacity >= 1, every
+   request size: exactly the header bytes of the data *)
+Theorem run_hdr_read_to_end_spec : forall prefix data sc cap chunk, 1 <= cap ->
+  fst (run_hdr_read_to_end prefix cap chunk (mkSource data sc))
+  = COk (hdr_text (Datatypes.S (length data)) prefix true data).
+Proof.
+  intros prefix data sc cap chunk Hcap. unfold run_hdr_read_to_end. cbn [s_script s_data].
+  set (f0 := n_interrupted sc).
+  pose proof (simulates_bounded source src_read rep_src f0 src_simulates) as Hsim.
+  pose proof (h_read_simulates src_read (bounded rep_src f0) Hsim cap Hcap prefix) as HsimH.
+  set (H := hdr_text (Datatypes.S (length data)) prefix true data).
+  destruct (run_raw_spec _ (h_read src_read cap prefix) (rep_hdr (bounded rep_src f0) prefix) HsimH
+              (fun _ => chunk) (fun _ n => f0 + n + 1)
+              ltac:(intros s d m n [d0 [[d' [_ [_ Hb]]] _]]; lia)
+              _ (Take (Datatypes.S (length data)) (fun bs => Ret bs)) ltac:(intros bs; exact I)
+              (true, ([], mkSource data sc)) H f0)
+    as [hs' [m' [E _]]].
+  - exists data. cbn [fst snd]. split; [|reflexivity].
+    exists data. cbn [fst snd app]. split; [reflexivity|]. split; [split; reflexivity|lia].
+  - rewrite E. cbn [run_pure fst cres_of].
+    rewrite firstn_all2; [reflexivity|].
+    pose proof (hdr_text_length_le prefix (Datatypes.S (length data)) true data). fold H in H0. lia.
 Qed.
